@@ -123,7 +123,7 @@ Proof.
   - unfold step_wwritehdr. destruct (writer s) eqn:Ew; try assumption. cbn zeta.
     apply (cs_mono s); [destruct (f_len _ =? 0); reflexivity| |assumption].
     unfold close_sent. rewrite Ew. intro H.
-    destruct (f_len _ =? 0); st_simpl_goal; rewrite existsb_snoc; cbn [is_close_chunk]; rewrite stamp_typ;
+    destruct (f_len _ =? 0); st_simpl_goal; rewrite existsb_snoc; cbn [is_close_chunk]; rewrite ?stamp_typ;
       apply orb_true_iff in H; destruct H as [H|H]; rewrite H; rewrite ?orb_true_r; reflexivity.
   - unfold step_wwritepay. destruct (writer s) eqn:Ew; try assumption.
     apply (cs_mono s); [reflexivity| |assumption]. unfold close_sent. rewrite Ew. cbn [orb]. intro H.
@@ -131,7 +131,7 @@ Proof.
   - unfold step_writefail. destruct (writer s) eqn:Ew; try assumption.
     + destruct (k <? header_sz); [|assumption].
       apply (cs_mono s); [reflexivity| |assumption]. unfold close_sent. rewrite Ew. intro H.
-      st_simpl_goal. rewrite existsb_snoc. cbn [is_close_chunk orb]. rewrite stamp_typ.
+      st_simpl_goal. rewrite existsb_snoc. cbn [is_close_chunk orb]. rewrite ?stamp_typ.
       apply orb_true_iff in H; destruct H as [H|H]; rewrite H; rewrite ?orb_true_r; reflexivity.
     + destruct (k <? f_len _); [|assumption].
       apply (cs_mono s); [reflexivity| |assumption]. unfold close_sent. rewrite Ew. cbn [orb]. intro H.
